@@ -680,11 +680,23 @@ func (g *Gen) Generate() {
 	g.assumePkgInvs(st, g.fn)
 	g.in[fn.Blocks[0]] = st
 	order := rpo(fn, g.backEdge)
+	if g.con != nil {
+		for _, cl := range g.con.CallSites {
+			cl.Loop = 0
+		}
+	}
 	for _, b := range order {
 		if len(g.fatal) > 0 {
 			return
 		}
 		g.processBlock(b)
+	}
+	if g.con != nil {
+		for _, cl := range g.con.CallSites {
+			if cl.Loop == 0 {
+				g.fatalf("callsite clause %s names call %s, which does not occur (contract without subject)", cl.Name, cl.Label)
+			}
+		}
 	}
 }
 
@@ -706,6 +718,11 @@ func (g *Gen) allProps() []string {
 				for _, t := range c.Tags {
 					m[t] = true
 				}
+			}
+		}
+		for _, c := range g.con.CallSites {
+			for _, t := range c.Tags {
+				m[t] = true
 			}
 		}
 	}
@@ -922,18 +939,9 @@ func (g *Gen) loopEnv(li *loopInfo, heap Heap, phiVals map[*ssa.Phi]string) *Env
 			env.vars[phi.Name()] = EnvVal{term: t, ty: VType{Go: phi.Type()}}
 		}
 	}
-	// values defined before the loop and named in the source (DebugRef) that dominate the header
-	for b, names := range g.debugNames {
-		if b != li.header && b.Dominates(li.header) {
-			for n, v := range names {
-				if _, ok := env.vars[n]; !ok {
-					if t, ok := g.vals[v]; ok {
-						env.vars[n] = EnvVal{term: t, ty: VType{Go: v.Type()}}
-					}
-				}
-			}
-		}
-	}
+	// values defined before the loop and named in the source that dominate the header: the closest
+	// dominator wins (a phi named after the variable, or the last DebugRef of the variable in that block)
+	g.namedValues(li.header.Idom(), env)
 	for b, names := range g.debugAddrs {
 		if b != li.header && b.Dominates(li.header) {
 			for n, al := range names {
@@ -1204,4 +1212,28 @@ func (g *Gen) autoInv(li *loopInfo, vals map[*ssa.Phi]string) string {
 		return ""
 	}
 	return "(and " + strings.Join(parts, " ") + ")"
+}
+
+// namedValues binds source-level variable names to SSA values, walking up the dominator tree from b.
+func (g *Gen) namedValues(b *ssa.BasicBlock, env *Env) {
+	for ; b != nil; b = b.Idom() {
+		local := map[string]EnvVal{}
+		for _, in := range b.Instrs {
+			if phi, ok := in.(*ssa.Phi); ok && phi.Comment != "" {
+				if t, ok := g.vals[phi]; ok {
+					local[phi.Comment] = EnvVal{term: t, ty: VType{Go: phi.Type()}}
+				}
+			}
+		}
+		for n, v := range g.debugNames[b] {
+			if t, ok := g.vals[v]; ok {
+				local[n] = EnvVal{term: t, ty: VType{Go: v.Type()}}
+			}
+		}
+		for n, ev := range local {
+			if _, ok := env.vars[n]; !ok {
+				env.vars[n] = ev
+			}
+		}
+	}
 }
